@@ -40,18 +40,9 @@ pub struct TEv {
     pub ord: u32,
     /// index of the operation (within its thread) that performed the access
     pub op: u8,
-    /// happens-before bookkeeping, guessed and constrained locally during validation (C07):
-    /// vector clock of the thread after this event
-    pub vc: [u8; T],
-    /// release clock of the event's location after this event (what an acquire read of it joins)
-    pub lr: [u8; T],
-    /// ITER events: per thread, the own-clock of its latest use of the wrapped iterator so far
-    pub li: [u8; T],
-    /// ITER events: some earlier use by another thread is not ordered before this one
-    pub racy: bool,
 }
 
-pub const TEV0: TEv = TEv { ts: 0, loc: 0, kind: 0, operand: 0, before: 0, after: 0, pred: NO_PRED, ord: 9, op: 0, vc: [0; T], lr: [0; T], li: [0; T], racy: false };
+pub const TEV0: TEv = TEv { ts: 0, loc: 0, kind: 0, operand: 0, before: 0, after: 0, pred: NO_PRED, ord: 9, op: 0 };
 
 pub static mut VH_TEV: [[TEv; M]; T] = [[TEV0; M]; T];
 /// number of guessed events per thread
@@ -100,7 +91,7 @@ fn step_after(kind: u32, operand: usize, before: usize, len: usize) -> usize {
 }
 
 /// Guesses the trace and validates it. `total` = number of events of all threads.
-pub fn guess_and_validate(len: usize, hb: bool) {
+pub fn guess_and_validate(len: usize) {
     unsafe {
         VH_TLEN = len;
         let mut total = 0usize;
@@ -124,10 +115,6 @@ pub fn guess_and_validate(len: usize, hb: bool) {
                         pred: kani::any(),
                         ord: kani::any(),
                         op: kani::any(),
-                        vc: kani::any(),
-                        lr: kani::any(),
-                        li: kani::any(),
-                        racy: kani::any(),
                     };
                     kani::assume(e.ord <= 4 && (e.op as usize) < 4);
                     kani::assume((e.ts as usize) < total_bound());
@@ -183,9 +170,6 @@ pub fn guess_and_validate(len: usize, hb: bool) {
                     } else {
                         kani::assume(e.pred < e.ts);
                     }
-                    // predecessor on the same location: its release clock / iterator-use record / thread
-                    let mut g_lr = [0u8; T];
-                    let mut g_li = [0u8; T];
                     let mut u = 0;
                     while u < T {
                         let mut k = 0;
@@ -198,8 +182,6 @@ pub fn guess_and_validate(len: usize, hb: bool) {
                                     if g.ts == e.pred {
                                         kani::assume(g.after == e.before);
                                         found = true;
-                                        g_lr = g.lr;
-                                        g_li = g.li;
                                     }
                                 }
                             }
@@ -208,46 +190,6 @@ pub fn guess_and_validate(len: usize, hb: bool) {
                         u += 1;
                     }
                     kani::assume(found);
-                    if hb {
-                        // vector clock: program order, then the acquire join with what the location publishes
-                        let mut base = if j == 0 { [0u8; T] } else { VH_TEV[t][j - 1].vc };
-                        base[t] += 1;
-                        let is_load = e.kind == K_LOAD;
-                        let is_rmw = e.kind == K_FETCH_ADD;
-                        let is_iter = e.kind == K_ITER;
-                        let joins = (is_load || is_rmw) && acq(e.ord);
-                        let mut x = 0;
-                        while x < T {
-                            let v = if joins && g_lr[x] > base[x] { g_lr[x] } else { base[x] };
-                            kani::assume(e.vc[x] == v);
-                            // release clock of the location after this event
-                            let l = if is_load || is_iter {
-                                g_lr[x]
-                            } else if is_rmw {
-                                // an RMW continues the release sequence; a releasing one adds its own clock
-                                if rel(e.ord) && v > g_lr[x] { v } else { g_lr[x] }
-                            } else if rel(e.ord) {
-                                v
-                            } else {
-                                0
-                            };
-                            kani::assume(e.lr[x] == l);
-                            let i = if !is_iter { 0 } else if x == t { v } else { g_li[x] };
-                            kani::assume(e.li[x] == i);
-                            x += 1;
-                        }
-                        let mut r = false;
-                        if is_iter {
-                            let mut x = 0;
-                            while x < T {
-                                if x != t && g_li[x] > e.vc[x] {
-                                    r = true;
-                                }
-                                x += 1;
-                            }
-                        }
-                        kani::assume(e.racy == r);
-                    }
                 }
                 j += 1;
             }
@@ -284,13 +226,6 @@ pub fn guess_and_validate(len: usize, hb: bool) {
         VH_TCELL2 = core::ptr::null_mut();
         crate::hook::VH_TRACE_MODE = true;
     }
-}
-
-fn acq(o: u32) -> bool {
-    o == O_ACQUIRE || o == O_ACQREL || o == O_SEQCST
-}
-fn rel(o: u32) -> bool {
-    o == O_RELEASE || o == O_ACQREL || o == O_SEQCST
 }
 
 const fn total_bound() -> usize {
@@ -509,51 +444,101 @@ impl Iterator for TProbe {
     }
 }
 
+fn acq(o: u32) -> bool {
+    o == O_ACQUIRE || o == O_ACQREL || o == O_SEQCST
+}
+fn rel(o: u32) -> bool {
+    o == O_RELEASE || o == O_ACQREL || o == O_SEQCST
+}
 
-/// C07, read off the validated trace (the clocks were constrained during validation from the memory
-/// orderings the real call sites used; C11 rules: a release store heads a release sequence, RMWs continue
-/// it, an acquire load/RMW that reads from it synchronises, relaxed accesses do neither):
-/// (race, overlap) = (two uses of the wrapped iterator by different threads are unordered by
-/// happens-before, another thread used the iterator between two uses belonging to one operation).
+/// C07: happens-before over the validated trace from the recorded orderings (C11 rules: a release
+/// store heads a release sequence, RMWs continue it, an acquire load/RMW that reads from it
+/// synchronises; relaxed accesses do neither). Returns true iff two uses of the wrapped iterator by
+/// different threads are unordered (a data race), or interleave inside one operation's critical section.
 pub fn iter_race() -> (bool, bool) {
     unsafe {
+        let total = VH_TCNT[0] + VH_TCNT[1];
+        let mut vc = [[0u8; T]; T];
+        let mut relc = [[0u8; T]; NLOC];
+        let mut last_iter = [0u8; T];
+        let mut used_iter = [false; T];
         let mut race = false;
         let mut overlap = false;
-        let mut t = 0;
-        while t < T {
-            let mut j = 0;
-            while j < M {
-                if j < VH_TCNT[t] && VH_TEV[t][j].kind == K_ITER {
-                    let e = VH_TEV[t][j];
-                    if e.racy {
-                        race = true;
-                    }
-                    // e lies strictly between two uses of the same operation of another thread
-                    let mut u = 0;
-                    while u < T {
-                        if u != t {
-                            let mut a = 0;
-                            while a < M {
-                                let mut b = a + 1;
-                                while b < M {
-                                    if b < VH_TCNT[u] {
-                                        let x = VH_TEV[u][a];
-                                        let y = VH_TEV[u][b];
-                                        if x.kind == K_ITER && y.kind == K_ITER && x.op == y.op && x.ts < e.ts && e.ts < y.ts {
-                                            overlap = true;
-                                        }
+        // the operation that currently "owns" the iterator: (thread, op) of the latest ITER event
+        let mut owner_t = T;
+        let mut owner_op = 0u8;
+        let mut owner_more = false; // the owner has a later ITER event in the same operation
+        let mut k = 0;
+        while k < T * M {
+            if k < total {
+                // the event with timestamp k
+                let mut t = 0;
+                while t < T {
+                    let mut j = 0;
+                    while j < M {
+                        if j < VH_TCNT[t] && VH_TEV[t][j].ts as usize == k {
+                            let e = VH_TEV[t][j];
+                            vc[t][t] += 1;
+                            let l = e.loc as usize;
+                            if e.kind == K_ITER {
+                                let mut u = 0;
+                                while u < T {
+                                    if u != t && used_iter[u] && last_iter[u] > vc[t][u] {
+                                        race = true;
                                     }
-                                    b += 1;
+                                    u += 1;
                                 }
-                                a += 1;
+                                if owner_t != T && owner_t != t && owner_more {
+                                    overlap = true;
+                                }
+                                used_iter[t] = true;
+                                last_iter[t] = vc[t][t];
+                                owner_t = t;
+                                owner_op = e.op;
+                                // does this thread use the iterator again within the same operation?
+                                owner_more = false;
+                                let mut jj = j + 1;
+                                while jj < M {
+                                    if jj < VH_TCNT[t] && VH_TEV[t][jj].kind == K_ITER && VH_TEV[t][jj].op == owner_op {
+                                        owner_more = true;
+                                    }
+                                    jj += 1;
+                                }
+                            } else {
+                                let is_rmw = e.kind == K_FETCH_ADD;
+                                let is_load = e.kind == K_LOAD;
+                                if (is_load || is_rmw) && acq(e.ord) {
+                                    let mut u = 0;
+                                    while u < T {
+                                        if relc[l][u] > vc[t][u] {
+                                            vc[t][u] = relc[l][u];
+                                        }
+                                        u += 1;
+                                    }
+                                }
+                                if !is_load {
+                                    let mut u = 0;
+                                    while u < T {
+                                        if is_rmw {
+                                            if rel(e.ord) && vc[t][u] > relc[l][u] {
+                                                relc[l][u] = vc[t][u];
+                                            }
+                                        } else if rel(e.ord) {
+                                            relc[l][u] = vc[t][u];
+                                        } else {
+                                            relc[l][u] = 0;
+                                        }
+                                        u += 1;
+                                    }
+                                }
                             }
                         }
-                        u += 1;
+                        j += 1;
                     }
+                    t += 1;
                 }
-                j += 1;
             }
-            t += 1;
+            k += 1;
         }
         (race, overlap)
     }
